@@ -118,29 +118,47 @@ def cutsP : P (List Nat) := do
 def showFeed (st : FeedSt) : String :=
   s!"n={st.frames.length} [{" ; ".intercalate (st.frames.map showFrame)}] rest={st.buf.length} dead={if st.dead then 1 else 0}"
 
+def decodeOp (codec : Nat) (args : List String) : String :=
+  match args with
+  | [h] => match runP bytesTok h with
+    | some bs => showRes codec (parseG (codecOf codec) envD bs)
+    | none => "bad-op"
+  | _ => "bad-op"
+
+def nestedOp (codec : Nat) (args : List String) : String :=
+  match args with
+  | [d, s] => match d.toNat?, s.toNat? with
+    | some depth, some stack =>
+      showRes codec (parseG (codecOf codec) { depth := stack / 16, mem := memLimit } (nested depth))
+    | _, _ => "bad-op"
+  | _ => "bad-op"
+
+def feedOp (codec : Nat) (args : List String) : String :=
+  match args with
+  | [h, c] => match runP bytesTok h, runP cutsP c with
+    | some bs, some cuts =>
+      let p := fun b => (parseG (codecOf codec) envD b).out
+      showFeed (feedAll p FeedSt.init (cutAt bs cuts))
+    | _, _ => "bad-op"
+  | _ => "bad-op"
+
+def encodeOp (k : Nat) (args : List String) : String :=
+  match valP.run args with
+  | some (v, []) => hexOfBytes (if k = 2 then encode2 v else if k = 1 then encode1 v else encode3 v)
+  | _ => "bad-op"
+
 def step (line : String) : String :=
   match tokens line with
   | ["Z"] => s!"elemsize={elemSize}"
-  | ["D1", h] | ["D2", h] =>
-    let codec := if (tokens line).head! == "D1" then 1 else 2
-    match runP bytesTok h with
-    | some bs => showRes codec (parseG (codecOf codec) envD bs)
-    | none => "bad-op"
-  | [op, d, s] =>
-    if op == "N1" || op == "N2" then
-      let codec := if op == "N1" then 1 else 2
-      match d.toNat?, s.toNat? with
-      | some depth, some stack =>
-        showRes codec (parseG (codecOf codec) { depth := stack / 16, mem := memLimit } (nested depth))
-      | _, _ => "bad-op"
-    else if op == "F1" || op == "F2" then
-      let codec := if op == "F1" then 1 else 2
-      match runP bytesTok d, runP cutsP s with
-      | some bs, some cuts =>
-        let p := fun b => (parseG (codecOf codec) envD b).out
-        showFeed (feedAll p FeedSt.init (cutAt bs cuts))
-      | _, _ => "bad-op"
-    else "bad-op"
+  | "D1" :: args => decodeOp 1 args
+  | "D2" :: args => decodeOp 2 args
+  | "N1" :: args => nestedOp 1 args
+  | "N2" :: args => nestedOp 2 args
+  | "F1" :: args => feedOp 1 args
+  | "F2" :: args => feedOp 2 args
+  | "E1" :: args => encodeOp 1 args
+  | "E2" :: args => encodeOp 2 args
+  | "E3" :: args => encodeOp 3 args
   | ["L", h] =>
     match runP bytesTok h with
     | some bs => hexOfBytes (utf8Lossy bs)
@@ -151,13 +169,6 @@ def step (line : String) : String :=
       | some n => showInt' n
       | none => "none"
     | none => "bad-op"
-  | op :: rest =>
-    if op == "E1" || op == "E2" || op == "E3" then
-      match (valP.run rest) with
-      | some (v, []) =>
-        hexOfBytes (if op == "E2" then encode2 v else if op == "E1" then encode1 v else encode3 v)
-      | _ => "bad-op"
-    else "bad-op"
   | _ => "bad-op"
 
 end RedisVerif.Driver.C15
